@@ -88,6 +88,20 @@ func (vc *VC) callModifies(c *ssa.CallCommon, mod map[string]bool) {
 			mod["alloc"] = true
 			return
 		}
+		if n := calleeName(f); len(c.Args) > 0 && strings.HasPrefix(n, "(*sync.") {
+			if md, _, _ := vc.monitorOf(c.Args[0]); md != nil {
+				if strings.HasSuffix(n, "Lock") && !strings.HasSuffix(n, "Unlock") {
+					mod["*"] = true // acquiring a monitor lock: other threads ran
+				}
+				return
+			}
+		}
+		if n := calleeName(f); n == "sync/atomic.LoadPointer" || n == "sync/atomic.CompareAndSwapPointer" {
+			if ac, _, _ := vc.atomicCellOf(); ac != nil {
+				mod[ghostLoad], mod[ghostCasOK], mod[ghostCasOld], mod[ghostCasNew] = true, true, true, true
+				return
+			}
+		}
 		if fi := vc.P.contractFor(f); fi != nil {
 			if len(fi.fc.Modifies) == 0 {
 				// no frame declared: treated like an unknown call
@@ -102,13 +116,15 @@ func (vc *VC) callModifies(c *ssa.CallCommon, mod map[string]bool) {
 			return
 		}
 	} else if c.IsInvoke() {
-		if fi := vc.P.byObj[c.Method]; fi != nil && len(fi.fc.Modifies) > 0 {
+		if fi := vc.P.ifaceContract(c.Method); fi != nil && len(fi.fc.Modifies) > 0 {
 			for _, h := range vc.modifiesHeaps(fi) {
 				mod[h] = true
 			}
 			mod["alloc"] = true
 			return
 		}
+	} else if _, ok := vc.pureFieldOfValue(c.Value); ok {
+		return
 	}
 	mod["*"] = true
 }
@@ -149,6 +165,9 @@ func splitTop(s string) []string {
 
 // modItemHeap resolves `p.f`, `*p`, `s[*]` against the callee's parameter types.
 func (vc *VC) modItemHeap(fi *FuncInfo, item string) string {
+	if h, ok := vc.heapItem(fi, item); ok {
+		return h
+	}
 	base := item
 	kind := ""
 	switch {
@@ -235,6 +254,12 @@ func (vc *VC) call(in ssa.Instruction, c *ssa.CallCommon, st *State, reach Term)
 		if fi := vc.P.contractFor(f); fi != nil {
 			return vc.contractCall(fi, args, st, reach, rt, pos)
 		}
+		if r, ok := vc.atomicCall(calleeName(f), c, args, st, reach, rt, pos); ok {
+			return r
+		}
+		if r, ok := vc.monitorCall(calleeName(f), c, st, reach, rt, pos); ok {
+			return r
+		}
 		if r, ok := vc.stdlibModel(calleeName(f), c, args, st, reach, rt, pos); ok {
 			return r
 		}
@@ -261,7 +286,7 @@ func (vc *VC) call(in ssa.Instruction, c *ssa.CallCommon, st *State, reach Term)
 		if r, ok := vc.hashInvoke(c, args, st, reach, rt, pos); ok {
 			return r
 		}
-		if fi := vc.P.byObj[c.Method]; fi != nil {
+		if fi := vc.P.ifaceContract(c.Method); fi != nil {
 			// receiver must be non-nil to invoke
 			vc.oblige("safe:nil", "invoke", reach, not(app("(_ is dnil)", args[0].t)), pos, vc.construct(pos))
 			return vc.contractCall(fi, args, st, reach, rt, pos)
@@ -273,6 +298,9 @@ func (vc *VC) call(in ssa.Instruction, c *ssa.CallCommon, st *State, reach Term)
 		if !vc.nonnil[c.Value] && !(vc.panicMode && !vc.inRunDefers) {
 			// (in a function with defer, calling a nil function value is one of the ways the call panics)
 			vc.oblige("safe:nil", "funcvalue", reach, not(eq(fv.t, "0")), pos, vc.construct(pos))
+		}
+		if key, ok := vc.pureFieldOfValue(c.Value); ok {
+			return vc.pureFieldApply(key, fv, args, rt)
 		}
 	}
 	if mc, ok := c.Value.(*ssa.MakeClosure); ok && !c.IsInvoke() {
@@ -458,6 +486,15 @@ func (vc *VC) contractCall(fi *FuncInfo, args []Val, st *State, reach Term, rt t
 		}
 		vc.havocByTypes(ts, fi.fc.IsIface, st)
 	}
+	// ghost state of an atomic cell: after the call it describes the callee's activation (its last
+	// load and its successful compare-and-swap, if any), which is what the callee's postconditions say
+	if len(fi.fc.Cas) > 0 || fi.mentionsAtomicGhost() {
+		for _, g := range []string{ghostLoad, ghostCasOK, ghostCasOld, ghostCasNew} {
+			if _, ok := vc.heapSort[g]; ok {
+				vc.havocHeap(st, g)
+			}
+		}
+	}
 	res := vc.freshTyped(st, "r_"+fi.fc.Name, rt, reach)
 	renv := map[string]Val{}
 	if res.tuple != nil {
@@ -484,6 +521,9 @@ func (vc *VC) applyModifies(fi *FuncInfo, env map[string]Val, st, pre *State, re
 			item = strings.TrimSpace(item)
 			switch {
 			case item == "nothing":
+			case strings.HasPrefix(item, "heap "):
+				h, _ := vc.heapItem(fi, item)
+				vc.havocHeap(st, h)
 			case strings.HasSuffix(item, "[*]"):
 				base := strings.TrimSuffix(item, "[*]")
 				v, ok := env[base]
@@ -563,10 +603,14 @@ func (vc *VC) frameCheck(st *State, reach Term, pos token.Pos) {
 		all  bool
 	}
 	var ex []excl
+	whole := map[string]bool{} // heaps named as a whole (`modifies heap T`)
 	for _, cl := range vc.fi.fc.Modifies {
 		for _, item := range splitTop(cl.Text) {
 			item = strings.TrimSpace(item)
 			switch {
+			case strings.HasPrefix(item, "heap "):
+				h, _ := vc.heapItem(vc.fi, item)
+				whole[h] = true
 			case strings.HasSuffix(item, "[*]"):
 				v := vc.params[strings.TrimSuffix(item, "[*]")]
 				sl := v.typ.Underlying().(*types.Slice)
@@ -606,7 +650,7 @@ func (vc *VC) frameCheck(st *State, reach Term, pos token.Pos) {
 		}
 		cur := vc.heapGet(st, name, sort)
 		old := vc.heapGet(vc.entry, name, sort)
-		if cur == old {
+		if cur == old || whole[name] {
 			continue
 		}
 		if strings.HasPrefix(name, "G_") {
@@ -788,6 +832,10 @@ func (vc *VC) copyCall(c *ssa.CallCommon, st *State, reach Term, rt types.Type) 
 
 func (vc *VC) rangeInit(x *ssa.Range, st *State, reach Term) {
 	vc.heapSet(st, "iter@"+x.Name(), "Int", "0")
+	if mt, ok := x.X.Type().Underlying().(*types.Map); ok && vc.mapRangeNoInsert(x) {
+		// ghost: the set of keys this iteration has produced so far
+		vc.heapSet(st, "iter@seen@"+x.Name(), "(Array "+vc.S.sortOf(mt.Key())+" Bool)", "((as const (Array "+vc.S.sortOf(mt.Key())+" Bool)) false)")
+	}
 	vc.vals[x] = Val{t: "0", typ: x.Type()}
 }
 
@@ -824,6 +872,21 @@ func (vc *VC) next(x *ssa.Next, st *State, reach Term) {
 		implies(okc, and(app("select", app(ms.present(), m), vc.asTerm(k)), eq(v.t, app("select", app(ms.vals(), m), vc.asTerm(k))))),
 		implies(eq(mref, "0"), not(okc))))
 	vc.heapSet(st, hn, "Int", app("+", pos, "1"))
+	if vc.mapRangeNoInsert(r) {
+		// No entry is created in a map of this type while the loop runs (checked syntactically), so by the
+		// language definition every entry is produced at most once, and the iteration ends only when every
+		// entry still present has been produced (an entry removed before it is reached is not produced).
+		ks := vc.S.sortOf(mt.Key())
+		sn := "iter@seen@" + r.Name()
+		seen := vc.heapGet(st, sn, "(Array "+ks+" Bool)")
+		kq := vc.freshName("k")
+		vc.quantCtx = true
+		vc.addAssume(reach, and(
+			implies(okc, not(app("select", seen, vc.asTerm(k)))),
+			implies(not(okc), "(forall (("+kq+" "+ks+")) (! (=> (select ("+ms.present()+" "+m+") "+kq+") (select "+seen+" "+kq+")) :pattern ((select ("+ms.present()+" "+m+") "+kq+"))))")))
+		vc.heapSet(st, sn, "(Array "+ks+" Bool)", ite(okc, app("store", seen, vc.asTerm(k), "true"), seen))
+		vc.assume("map range without insertion (checked syntactically): each entry is produced at most once and the loop ends only when every entry still present was produced (Go language definition of range over a map)")
+	}
 	vc.assume("map range: yields arbitrary present keys; completeness/termination of map iteration assumed")
 	vc.vals[x] = Val{tuple: []Val{{t: okc, typ: types.Typ[types.Bool]}, k, v}, typ: x.Type()}
 }
@@ -934,3 +997,168 @@ func (P *Program) sourceLine(pos token.Pos) string {
 }
 
 func init() { _ = fmt.Sprint }
+
+// ---------------------------------------------------------------------------
+// function-valued struct fields declared `purefield TYPE.FIELD`: a call through such a field is
+// assumed to have no effect, not to panic, and to return a deterministic function of the function
+// value and the arguments (listed as an assumption on every use).
+
+func (vc *VC) pureFieldKey(t types.Type, field string) (string, bool) {
+	if p, ok := t.Underlying().(*types.Pointer); ok {
+		t = p.Elem()
+	}
+	n, ok := types.Unalias(t).(*types.Named)
+	if !ok || n.Obj().Pkg() == nil {
+		return "", false
+	}
+	key := n.Obj().Pkg().Path() + "." + n.Obj().Name() + "." + field
+	for ip, pc := range vc.P.pcs {
+		for _, f := range pc.PureFields {
+			if ip+"."+strings.TrimSpace(f) == key {
+				return key, true
+			}
+		}
+	}
+	return "", false
+}
+
+func (vc *VC) pureFieldOfValue(v ssa.Value) (string, bool) {
+	switch x := v.(type) {
+	case *ssa.Field:
+		if st, ok := x.X.Type().Underlying().(*types.Struct); ok {
+			return vc.pureFieldKey(x.X.Type(), st.Field(x.Field).Name())
+		}
+	case *ssa.UnOp:
+		if fa, ok := x.X.(*ssa.FieldAddr); ok && x.Op == token.MUL {
+			if pt, ok := fa.X.Type().Underlying().(*types.Pointer); ok {
+				if st, ok := pt.Elem().Underlying().(*types.Struct); ok {
+					return vc.pureFieldKey(pt.Elem(), st.Field(fa.Field).Name())
+				}
+			}
+		}
+	}
+	return "", false
+}
+
+func (vc *VC) pureFieldApply(key string, fv Val, args []Val, rt types.Type) Val {
+	vc.assume("function-valued field assumed pure, total and deterministic (no effects, no panic, result a function of the function value and the arguments): " + key)
+	sorts := []string{"Int"}
+	ts := []Term{fv.t}
+	for _, a := range args {
+		sorts = append(sorts, vc.S.sortOf(a.typ))
+		ts = append(ts, vc.asTerm(a))
+	}
+	f := vc.declareFun("fieldfn."+key, sorts, vc.S.sortOf(rt))
+	return Val{t: app(f, ts...), typ: rt}
+}
+
+// mapRangeNoInsert: x ranges over a map and nothing inside the loop(s) that iterate it can create an entry
+// in a map of that type: no map update on that map heap, no call that may write it (a contract frame
+// or the effect-free list says otherwise), only the builtin delete/clear.
+func (vc *VC) mapRangeNoInsert(x *ssa.Range) bool {
+	mt, ok := x.X.Type().Underlying().(*types.Map)
+	if !ok {
+		return false
+	}
+	if v, ok := vc.mapRangeCache[x]; ok {
+		return v
+	}
+	hn, _, _ := vc.mapHeapName(mt)
+	res := false
+	// the loop whose header consumes this iterator
+	for _, li := range vc.loops {
+		uses := false
+		for b := range li.blocks {
+			for _, in := range b.Instrs {
+				if n, ok := in.(*ssa.Next); ok && n.Iter == ssa.Value(x) {
+					uses = true
+				}
+			}
+		}
+		if !uses {
+			continue
+		}
+		res = true
+		for b := range li.blocks {
+			for _, in := range b.Instrs {
+				switch y := in.(type) {
+				case *ssa.MapUpdate:
+					if n, _, _ := vc.mapHeapName(y.Map.Type().Underlying().(*types.Map)); n == hn {
+						res = false
+					}
+				case ssa.CallInstruction:
+					if bi, ok := y.Common().Value.(*ssa.Builtin); ok && (bi.Name() == "delete" || bi.Name() == "clear") {
+						continue
+					}
+					mod := map[string]bool{}
+					vc.callModifies(y.Common(), mod)
+					if mod["*"] || mod[hn] {
+						res = false
+					}
+				}
+			}
+		}
+	}
+	if vc.mapRangeCache == nil {
+		vc.mapRangeCache = map[*ssa.Range]bool{}
+	}
+	vc.mapRangeCache[x] = res
+	return res
+}
+
+// heapItem: `modifies heap T` names a whole heap by the Go type of the memory it holds:
+// heap []T is the element memory of slices/arrays of T, heap map[K]V the memory of maps of that type,
+// heap *T the memory of T objects. It says: the function may write anywhere in that heap (and nowhere else).
+func (vc *VC) heapItem(fi *FuncInfo, item string) (string, bool) {
+	if !strings.HasPrefix(item, "heap ") {
+		return "", false
+	}
+	src := strings.TrimSpace(item[5:])
+	pos := token.NoPos
+	if fi.decl != nil && fi.decl.Body != nil {
+		pos = fi.decl.Body.Lbrace + 1
+	} else if o := fi.pkg.Types.Scope().Lookup(fi.fc.Recv); o != nil {
+		pos = o.Pos()
+	}
+	tv, err := types.Eval(vc.P.fset, fi.pkg.Types, pos, src)
+	if err != nil || !tv.IsType() {
+		vc.fail("modifies %s of %s: not a type (%v)", item, fi.fc.Key, err)
+	}
+	switch t := tv.Type.Underlying().(type) {
+	case *types.Slice:
+		n, _ := vc.memName(t.Elem())
+		return n, true
+	case *types.Map:
+		n, _, _ := vc.mapHeapName(t)
+		return n, true
+	case *types.Pointer:
+		n, _ := vc.heapName(t.Elem())
+		return n, true
+	}
+	vc.fail("modifies %s of %s: need []T, map[K]V or *T", item, fi.fc.Key)
+	return "", false
+}
+
+// ifaceContract finds the contract of an interface method, also through an instantiation of a
+// generic interface (whose method object is a copy of the declared one).
+func (P *Program) ifaceContract(m *types.Func) *FuncInfo {
+	if m == nil {
+		return nil
+	}
+	if fi := P.byObj[m]; fi != nil {
+		return fi
+	}
+	if o := m.Origin(); o != nil && o != m {
+		return P.byObj[o]
+	}
+	return nil
+}
+
+func (fi *FuncInfo) mentionsAtomicGhost() bool {
+	for _, cl := range fi.fc.Ensures {
+		if strings.Contains(cl.Text, "lastCas") || strings.Contains(cl.Text, "lastLoad") {
+			return true
+		}
+	}
+	return false
+}
